@@ -55,7 +55,10 @@ func genAsmHistory(r *sim.Rand, maxOps int, maxSize int, withRefs bool, straight
 			op = genFlagOp(r)
 			flags = applyFlagOp(flags, op)
 		case x < 80:
-			if nextLabel < int64(allLabelIdx) {
+			if nextLabel > 0 && r.Chance(1, 8) {
+				// a name that is taken already: refused, and nothing of it may stay behind
+				op = sim.Op{K: "label", N: []int64{int64(r.Intn(int(nextLabel)))}}
+			} else if nextLabel < int64(allLabelIdx) {
 				op = sim.Op{K: "label", N: []int64{nextLabel}}
 				nextLabel++
 			} else {
@@ -200,6 +203,19 @@ func (c19) Exec(sc *sim.Scenario, env *sim.Env) *sim.Violation {
 				eSnap = snapEmitter(e)
 				var c *asm.Emitter
 				blockTarget := make([]byte, total+16)
+				if (sc.Seed>>11)&1 == 1 {
+					// a scratch buffer just large enough for the block (the parent may well have
+					// emitted more than that already)
+					bs := 0
+					for _, o := range ops[i+1:] {
+						if o.K == "append" {
+							break
+						}
+						bs += opSize(o)
+					}
+					blockTarget = make([]byte, bs+int(sc.Seed>>12)&3)
+					st.Probe("clone_block_scratch_fits_tightly")
+				}
 				if inplace {
 					blockTarget = image[e.Len():]
 				}
